@@ -374,38 +374,18 @@ func dominatesD(a, b ssa.Instruction, d int) bool {
 	if d > absorbDepth {
 		return false
 	}
-	// b lies in an absorbed helper: a dominates b when it dominates every call of the helper (or is that call)
-	if sites := SitesOf(fb); len(sites) > 0 && len(CallChains(fa, fb)) > 0 {
-		for _, s := range sites {
-			si := s.(ssa.Instruction)
-			if len(CallChains(fa, si.Parent())) == 0 {
-				continue // a call from elsewhere: not a path of fa's region
-			}
-			if si != a && !dominatesD(a, si, d+1) {
-				return false
-			}
-		}
-		return true
+	// different functions of one region (a function and the helpers analysed as part of it): a dominates b when no path from
+	// the region's entry reaches b without executing a. The search correlates a helper's returned constants with the caller's
+	// tests of them, so "the caller only goes on when the helper reported success" is understood.
+	root := OuterOf(fa, fb)
+	if root == nil {
+		return false
 	}
-	// a lies in an absorbed helper of fb's region: it must run on every pass through the helper, and a call of the helper must dominate b
-	if sites := SitesOf(fa); len(sites) > 0 && len(CallChains(fb, fa)) > 0 {
-		if !mustExecute(a) {
-			return false
-		}
-		for _, s := range sites {
-			si := s.(ssa.Instruction)
-			if _, isDefer := si.(*ssa.Defer); isDefer {
-				continue
-			}
-			if len(CallChains(fb, si.Parent())) == 0 {
-				continue
-			}
-			if si == b || dominatesD(si, b, d+1) {
-				return true
-			}
-		}
+	q := &PathQuery{Fn: root, Stop: func(in ssa.Instruction) bool { return in == a }, Target: func(in ssa.Instruction) bool { return in == b }}
+	if q.Find() != nil {
+		return false
 	}
-	return false
+	return reachableInRegion(root, b)
 }
 
 // mustExecute: every path from the entry of a's function to one of its returns passes through a.
